@@ -2,7 +2,7 @@
 //! `AccountInfo`s. Shared by C08 and C15; the Lean side is `Driver/ProgAcct.lean`.
 //!
 //! ```text
-//! setup <zc|fix|var> <progid:hex32> <disc:hex> <owner:hex32> <writable:0|1> <data:hex>   -> ok
+//! setup <zc|zc0|fix|var|unit> <progid:hex32> <disc:hex> <owner:hex32> <writable:0|1> <data:hex>   -> ok
 //! borrow none|shared|shared7|excl      data borrow held while the following ops run        -> ok
 //! decode        AccountSetDecode::decode_accounts            -> ok | ok none | ok <borsh(v)> | err:…
 //! validate      AccountSetValidate::validate_accounts((), ctx)                   -> ok | err:…
@@ -15,7 +15,7 @@
 //! set <borsh(v)>     BorshAccount::set_inner(v)                                   -> ok | err:…
 //! mutate <borsh(v)>  *account = v   (DerefMut)                                    -> ok | panic
 //! get                borsh(&*account) (Deref)                                     -> ok <..> | panic
-//! serialize | reload BorshAccount::serialize() / reload()                  -> ok | err:… | panic
+//! serialize | reload BorshAccount::serialize() / reload()                  -> ok | err:…
 //! client        DeserializeBorshAccount::deserialize_account(data)        -> ok <borsh(v)> | err:…
 //! bytes         current data                                              -> <len> <hex>
 //! next          the next instruction: fresh AccountInfos over the current account state -> ok
@@ -27,7 +27,7 @@ use hx_common::hex;
 use hx_native::{err_class, key_from, res_class, AcctSpec, World};
 use star_frame::{
     account_set::{
-        account::{CloseAccount, RefundRent},
+        account::{CloseAccount, NormalizeRent, ReceiveRent, RefundRent},
         AccountSetCleanup, AccountSetDecode, AccountSetValidate,
     },
     client::DeserializeBorshAccount,
@@ -40,12 +40,15 @@ use star_frame::{
 use std::ops::Deref;
 
 pub const LAMPORTS: u64 = 10_000_000_000;
+pub const FUNDER_LAMPORTS: u64 = 1_000_000_000_000_000;
 
 #[derive(Clone, Copy, PartialEq, Eq, Debug)]
 pub enum Kind {
     Zc,
     Fix,
     Var,
+    Zc0,
+    Unit,
 }
 impl Kind {
     pub fn name(self) -> &'static str {
@@ -53,6 +56,20 @@ impl Kind {
             Kind::Zc => "zc",
             Kind::Fix => "fix",
             Kind::Var => "var",
+            Kind::Zc0 => "zc0",
+            Kind::Unit => "unit",
+        }
+    }
+    pub fn is_zc(self) -> bool {
+        matches!(self, Kind::Zc | Kind::Zc0)
+    }
+    /// bytes the type's body needs behind the discriminant (smallest valid body)
+    pub fn body_ok(self) -> usize {
+        match self {
+            Kind::Zc => 2,
+            Kind::Fix => 3,
+            Kind::Var => 9,
+            Kind::Zc0 | Kind::Unit => 0,
         }
     }
 }
@@ -72,6 +89,7 @@ impl Core {
         World::new(&[
             AcctSpec::new(key_from(1), Pubkey::new_from_array(owner)).writable(writable).data(data).lamports(LAMPORTS),
             AcctSpec::new(key_from(2), Pubkey::new_from_array([0; 32])).writable(true).lamports(1),
+            AcctSpec::new(key_from(3), Pubkey::new_from_array([0; 32])).writable(true).signer(true).lamports(FUNDER_LAMPORTS),
         ])
     }
     pub fn owner(&self) -> [u8; 32] {
@@ -91,6 +109,11 @@ impl Core {
         let mut accs = &self.world.infos()[1..];
         let mut ctx = Context::default();
         <Mut<AccountInfo> as AccountSetDecode<'_, ()>>::decode_accounts(&mut accs, (), &mut ctx).expect("recipient")
+    }
+    fn funder(&self) -> Signer<Mut<SystemAccount>> {
+        let mut accs = &self.world.infos()[2..];
+        let mut ctx = Context::default();
+        <Signer<Mut<SystemAccount>> as AccountSetDecode<'_, ()>>::decode_accounts(&mut accs, (), &mut ctx).expect("funder")
     }
     /// ops that do not involve the account set
     fn common(&mut self, t: &[&str]) -> Option<String> {
@@ -140,6 +163,33 @@ impl Core {
         let s = self.world.snapshot(0);
         self.world = Self::build(s.owner.to_bytes(), s.is_writable, s.data);
     }
+}
+
+/// The rent cleanups of an account set: `Op(&x)` (explicit funder / recipient), `Op(())` with the
+/// funder / recipient cached in the `Context` (`_c`), `Op(())` with an empty cache (`_cm`).
+macro_rules! rent_cleanup {
+    ($acct:expr, $ctx:expr, $core:expr, $op:expr) => {{
+        let (name, mode) = match $op.split_once('_') {
+            Some((n, m)) => (n, m),
+            None => ($op, ""),
+        };
+        let funder = $core.funder();
+        let recipient = $core.recipient();
+        if mode == "c" {
+            $ctx.set_funder(Box::new(funder.clone()));
+            $ctx.set_recipient(Box::new(recipient.clone()));
+        }
+        catch_str(|| {
+            res_class(match (name, mode) {
+                ("normalize", "") => $acct.cleanup_accounts(NormalizeRent(&funder), &mut $ctx),
+                ("receive", "") => $acct.cleanup_accounts(ReceiveRent(&funder), &mut $ctx),
+                ("refund", "") => $acct.cleanup_accounts(RefundRent(&recipient), &mut $ctx),
+                ("normalize", _) => $acct.cleanup_accounts(NormalizeRent(()), &mut $ctx),
+                ("receive", _) => $acct.cleanup_accounts(ReceiveRent(()), &mut $ctx),
+                (_, _) => $acct.cleanup_accounts(RefundRent(()), &mut $ctx),
+            })
+        })
+    }};
 }
 
 pub trait Sess {
@@ -217,9 +267,8 @@ where
                         Err(e) => err_class(e),
                     }),
                     "cleanup" => catch_str(|| res_class(acct.cleanup_accounts((), &mut ctx))),
-                    "refund" => {
-                        let r = self.core.recipient();
-                        catch_str(|| res_class(acct.cleanup_accounts(RefundRent(&r), &mut ctx)))
+                    "normalize" | "receive" | "refund" | "normalize_c" | "receive_c" | "refund_c" | "normalize_cm" | "receive_cm" | "refund_cm" => {
+                        rent_cleanup!(acct, ctx, self.core, *op)
                     }
                     "close" => {
                         ctx.set_recipient(Box::new(self.core.recipient()));
@@ -299,9 +348,8 @@ impl<T: BType> Sess for BorshSess<T> {
                 match *op {
                     "validate" => catch_str(|| res_class(acct.validate_accounts((), &mut ctx))),
                     "cleanup" => catch_str(|| res_class(acct.cleanup_accounts((), &mut ctx))),
-                    "refund" => {
-                        let r = self.core.recipient();
-                        catch_str(|| res_class(acct.cleanup_accounts(RefundRent(&r), &mut ctx)))
+                    "normalize" | "receive" | "refund" | "normalize_c" | "receive_c" | "refund_c" | "normalize_cm" | "receive_cm" | "refund_cm" => {
+                        rent_cleanup!(acct, ctx, self.core, *op)
                     }
                     "close" => {
                         ctx.set_recipient(Box::new(self.core.recipient()));
@@ -361,6 +409,18 @@ pub fn table() -> Vec<TypeEntry> {
                 disc: <$m::Var as ProgramAccount>::discriminant_bytes(),
                 ctor: Box::new(borsh_ctor::<$m::Var>(&$m::PID)),
             });
+            v.push(TypeEntry {
+                kind: Kind::Zc0,
+                prog_id: <$m::Prog as StarFrameProgram>::ID.to_bytes(),
+                disc: <$m::Zc0 as ProgramAccount>::discriminant_bytes(),
+                ctor: Box::new(zc::<$m::Zc0>(&$m::PID)),
+            });
+            v.push(TypeEntry {
+                kind: Kind::Unit,
+                prog_id: <$m::Prog as StarFrameProgram>::ID.to_bytes(),
+                disc: <$m::Unit as ProgramAccount>::discriminant_bytes(),
+                ctor: Box::new(borsh_ctor::<$m::Unit>(&$m::PID)),
+            });
         };
     }
     add!(p0);
@@ -368,8 +428,14 @@ pub fn table() -> Vec<TypeEntry> {
     add!(p2);
     add!(p3);
     add!(p4);
+    add!(p5);
+    add!(p6);
+    add!(p7);
     add!(p8);
+    add!(p12);
     add!(p16);
+    add!(p24);
+    add!(p32);
     v.push(TypeEntry {
         kind: Kind::Zc,
         prog_id: <p1::Prog as StarFrameProgram>::ID.to_bytes(),
@@ -389,6 +455,7 @@ impl Interp {
     pub fn new() -> Self {
         #[allow(deprecated)]
         star_frame::verif_hooks::RENT.set(Some(Rent { lamports_per_byte_year: 3480, exemption_threshold: 2.0, burn_percent: 50 }));
+        install_cpi_handler();
         Interp { table: table(), sess: None }
     }
     pub fn reset(&mut self) {
@@ -405,6 +472,8 @@ impl Interp {
                     "zc" => Kind::Zc,
                     "fix" => Kind::Fix,
                     "var" => Kind::Var,
+                    "zc0" => Kind::Zc0,
+                    "unit" => Kind::Unit,
                     _ => return "bad-op".into(),
                 };
                 let (Some(pid), Some(disc), Some(owner), Some(data)) = (
@@ -442,4 +511,36 @@ pub fn unhex(s: &str) -> Option<Vec<u8>> {
         return None;
     }
     hx_common::unhex(s)
+}
+
+/// Stand-in for the runtime + System program for the only CPI these properties can trigger: the
+/// System `Transfer` of `CanFundRent::fund_rent` (pinocchio's native `invoke_signed` does nothing).
+/// Moves the lamports between the passed `AccountInfo`s; anything else is refused.
+pub static CPI_TRANSFERS: std::sync::atomic::AtomicU64 = std::sync::atomic::AtomicU64::new(0);
+
+fn install_cpi_handler() {
+    use star_frame::verif_hooks::{CpiRecord, CPI_HANDLER};
+    CPI_HANDLER.with_borrow_mut(|h| {
+        *h = Some(Box::new(|rec: &CpiRecord| {
+            let d = &rec.data;
+            let is_transfer = rec.program_id == Pubkey::new_from_array([0; 32]) && d.len() == 12 && d[..4] == 2u32.to_le_bytes() && rec.infos.len() == 2;
+            if !is_transfer {
+                return Some(Err(ProgramError::InvalidInstructionData.into()));
+            }
+            let amount = u64::from_le_bytes(d[4..12].try_into().unwrap());
+            let (from, to) = (&rec.infos[0], &rec.infos[1]);
+            if !from.is_signer() || !from.is_writable() || !to.is_writable() {
+                return Some(Err(ProgramError::MissingRequiredSignature.into()));
+            }
+            if from.lamports() < amount {
+                return Some(Err(ProgramError::InsufficientFunds.into()));
+            }
+            CPI_TRANSFERS.fetch_add(1, std::sync::atomic::Ordering::Relaxed);
+            unsafe {
+                *from.borrow_mut_lamports_unchecked() -= amount;
+                *to.borrow_mut_lamports_unchecked() += amount;
+            }
+            Some(Ok(()))
+        }));
+    });
 }
